@@ -400,13 +400,16 @@ type c08Handler struct {
 	cmd     chan string
 	started bool
 	ended   bool
-	busy    bool
+	busy    bool // inside NotifyProgress / Ping
+	retSent bool
+	abort   context.CancelFunc // gives up a server->client request nobody will answer (clean-up only)
 }
 
 type c08SessState struct {
 	name, version, sid string
 	ss                 *mcp.ServerSession
 	nsa                int
+	saBusy             bool
 	deleted            bool
 }
 
@@ -476,6 +479,21 @@ func (r *c08Run) gate(key string) {
 	<-g.ch
 	r.held.Add(-1)
 	r.log.emit("gate.pass", "key", key)
+}
+
+// disarm removes a gate that was armed for a write / replay which never reached the store.
+func (r *c08Run) disarm(key string) {
+	r.mu.Lock()
+	if g := r.gates[key]; g != nil && !g.hit {
+		delete(r.gates, key)
+	}
+	r.mu.Unlock()
+}
+
+func (r *c08Run) setBusy(h *c08Handler, b bool) {
+	r.mu.Lock()
+	h.busy = b
+	r.mu.Unlock()
 }
 
 // settle waits until every other goroutine of the bubble is blocked.  While an SDK goroutine is
@@ -574,14 +592,25 @@ func (r *c08Run) tool(ctx context.Context, req *mcp.CallToolRequest) (*mcp.CallT
 				n++
 				tag := fmt.Sprintf("%s.n%d", key, n)
 				r.log.emit("h.emit", "s", a.S, "r", a.R, "tag", tag, "kind", "notif")
+				r.setBusy(h, true)
 				err := req.Session.NotifyProgress(ctx, &mcp.ProgressNotificationParams{ProgressToken: "tok", Message: tag, Progress: float64(n)})
+				r.setBusy(h, false)
+				r.disarm("A:" + key)
 				r.log.emit("h.emit.end", "s", a.S, "r", a.R, "tag", tag, "err", c08Err(err))
 			case "sreq":
 				q++
 				tag := fmt.Sprintf("%s.q%d", key, q)
 				r.log.emit("h.emit", "s", a.S, "r", a.R, "tag", tag, "kind", "sreq")
-				err := req.Session.Ping(ctx, &mcp.PingParams{Meta: mcp.Meta{"tag": tag}})
-				r.log.emit("h.emit.end", "s", a.S, "r", a.R, "tag", tag, "err", c08Err(err))
+				pctx, pcancel := context.WithCancel(ctx)
+				r.mu.Lock()
+				h.busy, h.abort = true, pcancel
+				r.mu.Unlock()
+				err := req.Session.Ping(pctx, &mcp.PingParams{Meta: mcp.Meta{"tag": tag}})
+				pcancel()
+				r.mu.Lock()
+				h.busy, h.abort = false, nil
+				r.mu.Unlock()
+				r.log.emit("h.sreq.end", "s", a.S, "r", a.R, "tag", tag, "err", c08Err(err))
 			case "ret":
 				r.mu.Lock()
 				h.ended = true
@@ -630,6 +659,7 @@ func (r *c08Run) start(name, sess, kind, method string, hdr map[string]string, b
 			}
 		}()
 		r.handler.ServeHTTP(x, req)
+		r.disarm("F:" + name)
 		x.finish()
 	}()
 	return x
@@ -685,7 +715,7 @@ func (r *c08Run) setup() error {
 		r.mu.Lock()
 		r.creating = s.Name
 		r.mu.Unlock()
-		r.log.emit("x.begin", "x", "i."+s.Name, "s", s.Name, "kind", "init", "method", "POST", "reqs", []string{"init"}, "target", "init", "leid", "", "lidx", -1)
+		r.log.emit("x.begin", "x", "i."+s.Name, "s", s.Name, "kind", "init", "method", "POST", "reqs", []string{"init"}, "target", "init", "leid", "", "lidx", -1, "stream", "?")
 		x := r.start("i."+s.Name, s.Name, "init", "POST", map[string]string{"Accept": c08AcceptBoth}, body)
 		r.settle()
 		r.mu.Lock()
@@ -753,6 +783,7 @@ func (r *c08Run) step(st []any) {
 	}
 	op := arg(0)
 	applied := true
+	ri := -1
 	r.log.emit("step.begin", "op", op, "a1", arg(1), "a2", arg(2), "a3", arg(3), "a4", arg(4))
 	switch op {
 	case "post":
@@ -761,13 +792,27 @@ func (r *c08Run) step(st []any) {
 			applied = false
 			break
 		}
+		if r.sc.Cfg.Stateless {
+			// a "session" of a stateless handler is one POST
+			for n := range r.exch {
+				if strings.HasPrefix(n, "p."+s.name+".") {
+					applied = false
+				}
+			}
+			if !applied {
+				break
+			}
+		}
 		body := fmt.Sprintf(`{"jsonrpc":"2.0","id":%d,"method":"tools/call","params":{"name":"vt","arguments":{"s":%q,"r":%q}}}`, c08ReqID(rn), s.name, rn)
-		r.log.emit("x.begin", "x", "p."+s.name+"."+rn, "s", s.name, "kind", "call", "method", "POST", "reqs", []string{rn}, "target", rn, "leid", "", "lidx", -1)
+		r.log.emit("x.begin", "x", "p."+s.name+"."+rn, "s", s.name, "kind", "call", "method", "POST", "reqs", []string{rn}, "target", rn, "leid", "", "lidx", -1, "stream", "?")
 		r.start("p."+s.name+"."+rn, s.name, "call", "POST", r.headers(s, c08AcceptBoth), body)
 	case "emit", "sreq", "ret":
 		r.mu.Lock()
 		h := r.handlers[arg(1)+"."+arg(2)]
-		ok := h != nil && h.started && !h.ended
+		ok := h != nil && h.started && !h.ended && !h.busy && !h.retSent
+		if ok && op == "ret" {
+			h.retSent = true
+		}
 		r.mu.Unlock()
 		if !ok {
 			applied = false
@@ -792,15 +837,25 @@ func (r *c08Run) step(st []any) {
 		r.start(fmt.Sprintf("a.%s.%d", k, n), s.name, "ans", "POST", r.headers(s, c08AcceptBoth), fmt.Sprintf(`{"jsonrpc":"2.0","id":%s,"result":{}}`, rid))
 	case "sa":
 		s := r.sess[arg(1)]
-		if s == nil || s.ss == nil {
+		r.mu.Lock()
+		busy := s != nil && s.saBusy
+		r.mu.Unlock()
+		if s == nil || s.ss == nil || busy || s.deleted {
 			applied = false
 			break
 		}
+		r.mu.Lock()
+		s.saBusy = true
+		r.mu.Unlock()
 		s.nsa++
 		tag := fmt.Sprintf("%s.sa.n%d", s.name, s.nsa)
 		r.log.emit("h.emit", "s", s.name, "r", "sa", "tag", tag, "kind", "notif")
 		go func() {
 			err := s.ss.NotifyProgress(context.Background(), &mcp.ProgressNotificationParams{ProgressToken: "tok", Message: tag, Progress: 1})
+			r.mu.Lock()
+			s.saBusy = false
+			r.mu.Unlock()
+			r.disarm("A:" + s.name + ".sa")
 			r.log.emit("h.emit.end", "s", s.name, "r", "sa", "tag", tag, "err", c08Err(err))
 		}()
 	case "cut":
@@ -859,6 +914,7 @@ func (r *c08Run) step(st []any) {
 				applied = false
 				break
 			}
+			ri = lidx
 			leid = fmt.Sprintf("%s_%d", stream, lidx)
 			h["Last-Event-ID"] = leid
 		} else if target != "sa" {
@@ -869,13 +925,28 @@ func (r *c08Run) step(st []any) {
 		if target != "sa" {
 			reqs = []string{target}
 		}
-		r.log.emit("x.begin", "x", name, "s", s.name, "kind", "get", "method", "GET", "reqs", reqs, "target", target, "leid", leid, "lidx", lidx)
+		r.log.emit("x.begin", "x", name, "s", s.name, "kind", "get", "method", "GET", "reqs", reqs, "target", target, "leid", leid, "lidx", lidx, "stream", stream)
 		r.start(name, s.name, "get", "GET", h, "")
-	case "del":
+	case "del", "delf":
 		s := r.sess[arg(1)]
 		if s == nil || s.deleted || r.sc.Cfg.Stateless {
 			applied = false
 			break
+		}
+		if op == "del" {
+			// the graceful variant: only when no handler of the session is running and no write is in flight
+			r.mu.Lock()
+			idle := !s.saBusy && r.held.Load() == 0
+			for k, h := range r.handlers {
+				if strings.HasPrefix(k, s.name+".") && h.started && !h.ended {
+					idle = false
+				}
+			}
+			r.mu.Unlock()
+			if !idle {
+				applied = false
+				break
+			}
 		}
 		s.deleted = true
 		r.log.emit("del", "s", s.name)
@@ -894,7 +965,7 @@ func (r *c08Run) step(st []any) {
 		applied = false
 	}
 	r.settle()
-	r.log.emit("step", "op", op, "a1", arg(1), "a2", arg(2), "a3", arg(3), "a4", arg(4), "applied", applied, "snap", r.snapshot())
+	r.log.emit("step", "op", op, "a1", arg(1), "a2", arg(2), "a3", arg(3), "a4", arg(4), "ri", ri, "applied", applied, "snap", r.snapshot())
 }
 
 func (r *c08Run) openGates() bool {
@@ -964,8 +1035,8 @@ func (r *c08Run) run() {
 		}
 		var running []*c08Handler
 		for _, h := range r.handlers {
-			if h.started && !h.ended && !h.busy {
-				h.busy = true
+			if h.started && !h.ended && !h.retSent {
+				h.retSent = true
 				running = append(running, h)
 			}
 		}
@@ -999,6 +1070,14 @@ func (r *c08Run) run() {
 		x.cancel()
 	}
 	r.settle()
+	r.mu.Lock()
+	for _, h := range r.handlers {
+		if h.abort != nil {
+			h.abort()
+		}
+	}
+	r.mu.Unlock()
+	r.settle()
 	if r.server != nil {
 		for ss := range r.server.Sessions() {
 			go ss.Close()
@@ -1011,7 +1090,11 @@ func (r *c08Run) run() {
 }
 
 func c08RunScenario(t *testing.T, l *c08Log, sc *c08Scenario) {
-	l.emit("reset", "trace", sc.ID, "stateless", sc.Cfg.Stateless, "json", sc.Cfg.JSON, "store", sc.Cfg.Store)
+	prime := map[string]bool{}
+	for _, s := range sc.Sessions {
+		prime[s.Name] = s.Version >= "2025-11-25" && s.Version < "2026-07-28"
+	}
+	l.emit("reset", "trace", sc.ID, "stateless", sc.Cfg.Stateless, "json", sc.Cfg.JSON, "store", sc.Cfg.Store, "prime", prime)
 	t.Run(sc.ID, func(t *testing.T) {
 		defer func() {
 			if p := recover(); p != nil {
